@@ -77,7 +77,7 @@ class Editor(Party):
         fp = c.get("foreign_p", 0.0)
         if x < 0.3:
             s = {"op": "replace", "b": self.b, "ev": self.ev()}
-            if r.random() < fp:
+            if r.random() < c.get("foreign_replace_p", fp):
                 s["foreign"] = r.randrange(0, 1000)
             else:
                 s["k"] = r.randrange(0, 1000)
@@ -86,9 +86,10 @@ class Editor(Party):
             return {"op": "replace_last", "b": self.b, "ev": self.ev()}
         s = {"op": "delete", "b": self.b}
         y = r.random()
-        if y < fp:
+        fd = c.get("foreign_delete_p", fp)
+        if y < fd:
             s["foreign"] = r.randrange(0, 1000)
-        elif y < fp + c.get("never_p", 0.15):
+        elif y < fd + c.get("never_p", 0.15):
             s["never"] = True
         else:
             s["k"] = r.randrange(0, 1000)
